@@ -28,6 +28,20 @@ class WrapModel(Model):
         self.org = {}        # id(Iv) -> algebraic origin, for the floor-division lemma  x - floor(x/k)*k in [0, k-1]
         self.keep = []
 
+    @staticmethod
+    def decl_of(fr, n):
+        """name of the variable whose initialiser / assignment contains n (stable site name for reports)"""
+        p = n
+        while p is not None:
+            if p['k'] == 'DeclStmt' and p.get('decls'):
+                return p['decls'][0]['n']
+            if p['k'] in ('BinaryOperator', 'CompoundAssignOperator') and p.get('op', '').endswith('=') and p.get('op') not in ('==', '!=', '<=', '>='):
+                from bsv.facts import strip
+                l = strip(p['c'][0])
+                return (l.get('n') or l.get('m') or '?') if l is not None else '?'
+            p = fr.f.parent(p)
+        return 'expression'
+
     def mark(self, v, org):
         self.org[id(v)] = org
         self.keep.append(v)
@@ -105,14 +119,14 @@ class WrapModel(Model):
             return Iv(lo, hi, tag)
         # some value of the cell leaves the type
         if ((lo < r[0] <= hi) or (lo <= r[1] < hi)) and anyv:
-            it.act('OVERFLOW' if info[1] else 'WRAP', what + ' (operand known only by range)', fr.f.loc(n), t)
+            it.act('OVERFLOW' if info[1] else 'WRAP', what + ' (operand known only by range)', fr.f.loc(n), t, self.decl_of(fr, n))
             it.poisoned = True
             return Iv(r[0], r[1], 'ANY')
         if (lo < r[0] <= hi) or (lo <= r[1] < hi):
             if self.cell.lo == self.cell.hi:
                 raise AnalysisBroken('nowrap: non-singleton result on a singleton cell at %s' % fr.f.loc(n))
             raise Split(None)      # find the exact threshold first
-        it.act('OVERFLOW' if info[1] else 'WRAP', what, fr.f.loc(n), t)
+        it.act('OVERFLOW' if info[1] else 'WRAP', what, fr.f.loc(n), t, self.decl_of(fr, n))
         bits = info[0]
         wl, wh = interval.cast(Iv(lo, lo), t).lo, interval.cast(Iv(hi, hi), t).lo
         if hi - lo < (1 << bits) and wl <= wh and (wh - wl) == (hi - lo):
